@@ -11,6 +11,8 @@ CONSTANTS
   IdentityDepKey = FALSE
   VolatileUniq = TRUE
   FreshModule = TRUE
+  Words = {1}
+  FullStropKey = TRUE
 VIEW View
 INVARIANT EmitBad
 CHECK_DEADLOCK FALSE
